@@ -101,7 +101,9 @@ class Flattener:
             if len(vs) == 1 and vs[0] is not None:
                 v = vs[0]
                 d = dotted_name(v) or ''
-                if isinstance(v, ast.JoinedStr) or d.endswith('Units.value'):
+                if isinstance(v, ast.JoinedStr) or d.endswith('Units.value') or \
+                        (isinstance(v, ast.Call) and (dotted_name(v.func) or '').endswith('_field_label')) or \
+                        (isinstance(v, ast.Constant) and isinstance(v.value, str)):
                     self.local_strs[k] = v
         self._inlining: set = set()
 
@@ -164,6 +166,10 @@ class Flattener:
         d = dotted_name(e.func)
         if d and d.endswith('_field_label') and len(e.args) == 2:
             name = self.fold_str(e.args[0])
+            if name is None:
+                dd = dotted_name(e.args[0])
+                if dd and dd.split('.')[-1] in ('Name', 'display_name'):
+                    name = self.resolve_label(self.canon(dd))
             if name is not None and isinstance(e.args[1], ast.Constant):
                 w = e.args[1].value
                 return [Seg('label', f'{name}:{" " * (w - len(name) - 1)}')]
